@@ -5,6 +5,10 @@ mod out;
 mod rng;
 mod val;
 mod c20;
+mod c07;
+mod corpus;
+mod dump;
+mod c02;
 
 use std::path::PathBuf;
 
@@ -35,6 +39,9 @@ fn main() {
   }
   match args[1].as_str() {
     "c20" => c20::run(&o),
+    "c07" => c07::run(&o),
+    "c02" => c02::run_c02(&o),
+    "c03" => c02::run_c03(&o),
     s => { eprintln!("unknown stream {s}"); std::process::exit(2); }
   }
 }
